@@ -19,30 +19,6 @@ namespace PGA.Estimate
 section
 variable {N S : Type} [DecidableEq N] [DecidableEq S]
 
-theorem buildUQ_ok (u : UQ N) (gs : List (N × Rat)) (q : UQE) (h : buildUQ u gs = .ok q) :
-    ∃ x, placeX u.basis gs (zeros u.basis.length) = .ok x ∧ shapeOK u.basis.length u.mat = true ∧
-      q = ⟨u.rmse, quad x u.mat, u.dof⟩ := by
-  unfold buildUQ at h
-  split at h
-  · cases h
-  · rename_i x hx
-    split at h
-    · rename_i hs; cases h; exact ⟨x, hx, hs, rfl⟩
-    · cases h
-
-theorem estimate_uq (reg : List S) (lib : Library N S) (gs : List (N × Rat)) (s : S) (e : Estimator) (u : UQ N)
-    (he : estimate reg lib gs s = .ok e) (hu : lib.uq = some u) :
-    ∃ q, buildUQ u gs = .ok q ∧ e.uq = some q := by
-  obtain ⟨_, _, hc⟩ := (estimate_ok_iff reg lib gs s e).mp he
-  obtain ⟨cs, uq, _, huq, hf⟩ := (construct_ok_iff lib s gs e).mp hc
-  obtain ⟨_, _, _, h4⟩ := finish_ok _ _ _ _ hf
-  unfold uqPart at huq
-  rw [hu] at huq
-  simp only at huq
-  split at huq
-  · cases huq
-  · rename_i q hq; cases huq; exact ⟨q, hq, h4⟩
-
 /-- **T1 (the quadratic form)** For a library with uncertainty data, a successful estimate stores
 `q = xᵀMx` where `x` holds the mapping's counts in the order of the uncertainty basis (0 for basis entries the
 mapping does not mention) and `M` is the stored matrix (necessarily `n × n`, `n` the basis length), together
